@@ -21,6 +21,8 @@ structure WireObs where
   rest : Bytes := []
   seen : Bytes := []
   calls : List (String × String × Request) := []
+  /-- per recorded call: what `wants_more()` / `is_oneway()` told the implementation -/
+  callApi : List (Bool × Bool) := []
   refStatus : Status := .eof
   refOut : List Reply := []
   refTail : Bytes := []
@@ -331,16 +333,25 @@ def checkAllReached (cfg : WireCfg) (fs : List Frame) (o : WireObs) : Verdict :=
   let got := o.calls.map fun c => c.2.2
   if got == expected then none else some "call-did-not-reach-its-interface"
 
+/-- "with its flags … unchanged": the Call API must tell the implementation exactly the flags of its request -/
+def checkApiFlags (o : WireObs) : Verdict :=
+  firstSome <| (o.calls.zip o.callApi).map fun (c, api) =>
+    if api.1 != wantsMore c.2.2 then some "interface-was-told-a-different-more-flag"
+    else if api.2 != isOneway c.2.2 then some "interface-was-told-a-different-oneway-flag"
+    else none
+
 def P_C03 (cfg : WireCfg) (fs : List Frame) (o : WireObs) : Verdict :=
   if o.panicked then some "panic" else
-  match (checkCalls cfg fs o).orElse (fun _ => checkAllReached cfg fs o) with
+  match ((checkCalls cfg fs o).orElse (fun _ => checkAllReached cfg fs o)).orElse (fun _ => checkApiFlags o) with
   | some r => some r
   | none =>
-    -- reply clauses need attribution: only when P_C01's matching succeeds on an in-scope case
-    let inScopeAll := fs.all fun f => match f with | .req r => inScope cfg r | .bad => true
-    if !inScopeAll || o.rawOut then none else
+    -- reply clauses need attribution: replies are grouped (continues* + final) and paired with the requests in
+    -- order, as far as every request so far is in scope (a proper method implementation); what follows the
+    -- first out-of-scope request cannot be attributed and is not judged
+    if o.rawOut then none else
+    let inScopePrefix := fs.takeWhile fun f => match f with | .req r => inScope cfg r | .bad => false
     let (gs, _) := groupReplies o.out []
-    firstSome <| (pairGroups fs gs).map fun (r, g) => checkRouting cfg r g
+    firstSome <| (pairGroups inScopePrefix gs).map fun (r, g) => checkRouting cfg r g
 
 /-! #### P_C06 -/
 
